@@ -234,7 +234,35 @@ BYTE_SPECIALISED = {"Vec<T>", "[T]", "[T; L]"}
 SPECIAL = {"DeduplicatedString", "FieldPosition", "SerializedEvolutionStep"}     # rules T7, T8, T9
 
 
-def _abstract_writer(ev, self_is_bytes=False):
+VARIANT_TESTS = {"Option<T>::is_some": "Some", "Option<T>::is_none": "None", "Result<T, E>::is_ok": "Ok",
+                 "Result<T, E>::is_err": "Err"}
+
+
+def _variant_flag(term, path):
+    """0/1 when `term` is u8::from(x.is_some()) (or is_none / is_ok / is_err, or `.. as u8`) and the variant of x is fixed
+    on this path by a match on the same x; None otherwise"""
+    if path is None:
+        return None
+    t = strip_refs(term)
+    if t[0] == "call" and t[1] in ("<u8 as From<bool>>::from",) and t[3]:
+        t = strip_refs(t[3][0])
+    elif t[0] == "cast" and t[1] == "IntToInt" and t[2] == "bool":
+        t = strip_refs(t[4])
+    else:
+        return None
+    if not (t[0] == "call" and t[1] in VARIANT_TESTS and t[3]):
+        return None
+    x = guards.norm(strip_refs(t[3][0]))
+    for a in path.atoms():
+        c = a[1]
+        if c[0] == "discr" and guards.norm(strip_refs(c[1])) == x:
+            v = walk.atom_variant(a)
+            if v is not None:
+                return 1 if v == VARIANT_TESTS[t[1]] else 0
+    return None
+
+
+def _abstract_writer(ev, self_is_bytes=False, path=None):
     """abstract a writer event list into FORMAT items"""
     out = []
     payload_src = None
@@ -244,6 +272,8 @@ def _abstract_writer(ev, self_is_bytes=False):
         if e[0] == "w":
             kind, term = e[1], e[2]
             c = _const(term)
+            if c is None:
+                c = _variant_flag(term, path)
             if c is not None:
                 out.append(("w", kind, ("const", c)))
                 continue
@@ -257,6 +287,8 @@ def _abstract_writer(ev, self_is_bytes=False):
                 if x[0] == "len" or (x[0] == "call" and (x[1] in guards.PURE_LEN or x[1].endswith("::len"))):
                     inner = x[1] if x[0] == "len" else x[3][0]
                     lenof = _payload_name(inner)
+                elif x[0] == "const" and x[2] is None and x[3] and re.match(r"^[A-Z]\w*(/#\d+)?$", x[3]) and lenof is None:
+                    lenof = "self"          # the const generic length of the array `self`
             if lenof is not None:
                 out.append(("w", kind, ("len", lenof)))
             else:
@@ -293,7 +325,43 @@ def _plain_self(term):
         return "bool01"
     if t[0] == "index" and "encode_utf16" in show(t):
         return "utf16_unit"
+    if _bmp_unit(t):
+        return "utf16_unit"
     return "unlabelled:" + show(term)[:50]
+
+
+def _char_code(t):
+    """`t` is the code point of the char `self`: u32::from(*self) or *self as u32"""
+    t = strip_refs(t)
+    if t[0] == "call" and t[1] == "<u32 as From<char>>::from" and t[3]:
+        x = strip_refs(t[3][0])
+        return x[0] == "arg" and x[1] == 1
+    if t[0] == "cast" and t[1] == "IntToInt" and t[2] == "char" and t[3] == "u32":
+        x = strip_refs(t[4])
+        return x[0] == "arg" and x[1] == 1
+    return False
+
+
+def _bmp_try(t):
+    """the call u16::try_from(code point of self) inside `t` (peeling the Ok payload projection / `?`)"""
+    t = strip_refs(t)
+    while isinstance(t, tuple) and t[0] in ("field", "variant", "ok", "try"):
+        t = strip_refs(t[1])
+    if isinstance(t, tuple) and t[0] == "call" and t[1] in ("<u16 as TryFrom<u32>>::try_from", "<u32 as TryInto<u16>>::try_into",
+                                                             "<T as TryInto<U>>::try_into") and t[3] and _char_code(t[3][0]):
+        return t
+    return None
+
+
+def _bmp_unit(t):
+    """a char of the Basic Multilingual Plane is its own single UTF-16 unit (surrogates are not chars): the Ok payload of
+    u16::try_from(code point), or the truncation `code as u16` (G11 checks that it is guarded by code <= 0xFFFF)"""
+    t = strip_refs(t)
+    if _bmp_try(t) is not None and t[0] != "call":
+        return True
+    if t[0] == "cast" and t[1] == "IntToInt" and t[3] == "u16" and _char_code(t[4]):
+        return True
+    return False
 
 
 def _norm_sub(ty):
@@ -348,7 +416,7 @@ def writers_conform(an, rep, features="default"):
         for ev, p in writer_paths(b, core):
             if p.outcome[0] != "return":
                 continue
-            a = _abstract_writer(ev)
+            a = _abstract_writer(ev, path=p)
             a = flatten([(x[0], _norm_sub(x[1]), x[2]) if x[0] == "sub" else x for x in a])
             if a not in got:
                 got.append(a)
@@ -716,6 +784,19 @@ def _check_seq_reader(R, G9, G8, s, rb, core):
                      (tgt.startswith("core::result::Result<") or s in tgt or True), "<%s>" % s, "collect consumer",
                      "collect() is not applied to the element stream itself", mir.loc(rb, 0), sample={"type": s, "consumer": "collect::<Result<_,_>>"})
             continue
+        folds = [c for c in p.calls() if c[3] in ("Iterator::try_fold", "Iterator::try_for_each", "Iterator::fold",
+                                                  "Iterator::for_each") and c[5] and
+                 _binder_of(c[5][0], called_exact(p, "deserialize_iterator")[0][1])]
+        if folds:
+            # internal iteration over the element stream itself: fold/for_each visit every item; the try_ forms stop early
+            # only by returning the residual, which for R = Result<_, _> is an error
+            c = folds[0]
+            rty = c[6][-1].get("s", "") if c[6] else ""
+            ok_exits += 1
+            G9.check(not c[3].startswith("Iterator::try_") or rty.startswith("core::result::Result<"), "<%s>" % s,
+                     "fold consumer", "%s over the element stream can stop early with a non-error value (%s)" % (c[3], rty),
+                     mir.loc(rb, 0), sample={"type": s, "consumer": c[3]})
+            continue
         if p.outcome[0] == "return" and kind == "ok":
             # a for loop: the Ok exit must come after next() returned None
             ended = any(a[1][0] == "discr" and "as Iterator>::next" in show(a[1][1]) and walk.atom_variant(a) == "None" for a in p.atoms())
@@ -817,6 +898,10 @@ def char_codec(an, rep):
         one_unit = None
         for a in p.atoms():
             c = a[1]
+            if c[0] == "discr" and _bmp_try(c[1]) is not None and strip_refs(c[1])[0] == "call":
+                v = walk.atom_variant(a)       # u16::try_from(code point): Ok iff code <= 0xFFFF
+                one_unit = True if v == "Ok" else False if v == "Err" else None
+                continue
             if c[0] != "bin":
                 continue
             tv = guards.truth(a[2])
